@@ -41,3 +41,4 @@ import EtVerif.Props.TrGo08c
 #print axioms EtVerif.TrGo08.go_discount_zero_rep_exact
 #print axioms EtVerif.TrGo08.go_discount_zero_rep_set_exact
 #print axioms EtVerif.TrGo08c.go_extract_then_discount
+#print axioms EtVerif.TrGo08c.go_extract_twice
